@@ -241,6 +241,84 @@ pub fn cmd_sweep(args: &[String]) -> i32 {
                     samples.push(format!("{label}: {} transitions, {} types, {} leaps, footer {:?}", rz.transitions.len(), rz.types.len(), rz.leaps.len(), rz.footer.as_ref().map(|f| String::from_utf8_lossy(f).into_owned())));
                 }
             }
+            "reencode" => {
+                // the real zone re-encoded by the independent writer in other versions / string-table
+                // layouts / 32-bit blocks must decode to the same zone again
+                if !matches!(content, Content::Corpus(_)) {
+                    continue;
+                }
+                let rz = tzif::interpret(&raw);
+                let rule = match &rz.footer {
+                    Some(f) if f.len() > 2 => match crate::posix::parse_tz(&f[1..f.len() - 1], rz.version == b'3') {
+                        Some(r) => Some(r),
+                        None => {
+                            bump(&mut counters, "reencode_footer_not_understood");
+                            continue;
+                        }
+                    },
+                    _ => None,
+                };
+                let eff = match &raw.second {
+                    Some(s2) => &s2.b2,
+                    None => &raw.b1,
+                };
+                let mut types = Vec::new();
+                let mut ok = true;
+                for (i, (off, dst, desig)) in rz.types.iter().enumerate() {
+                    match desig {
+                        Some(d) => types.push(crate::spec::TypeSpec { off: *off, dst: *dst != 0, desig: d.clone(), isstd: eff.isstd.get(i).map_or(false, |x| *x != 0), isut: eff.isut.get(i).map_or(false, |x| *x != 0) }),
+                        None => ok = false,
+                    }
+                }
+                if !ok {
+                    continue;
+                }
+                let ind = (if eff.isstd.is_empty() { 0 } else { 1 }) | (if eff.isut.is_empty() { 0 } else { 2 });
+                let fits32 = rz.transitions.iter().all(|(t, _)| *t >= i32::MIN as i64 && *t <= i32::MAX as i64) && rz.leaps.iter().all(|(t, _)| *t >= i32::MIN as i64 && *t <= i32::MAX as i64);
+                let needs3 = rule.as_ref().map_or(false, |r| r.needs_extensions());
+                let original = decode(bytes);
+                for version in [1u8, 2, 3] {
+                    if version == 1 && !fits32 {
+                        continue;
+                    }
+                    if version == 2 && needs3 {
+                        continue;
+                    }
+                    for desig_mode in [0u8, 1] {
+                        for decoy in [0u64, 1, 7 + wi as u64] {
+                            if version == 1 && decoy != 0 {
+                                continue;
+                            }
+                            let spec = crate::spec::ZoneSpec { version, types: types.clone(), trans: rz.transitions.clone(), leaps: rz.leaps.clone(), rule: if version == 1 { None } else { rule.clone() }, rule_style: ((wi as u8) ^ decoy as u8) & 31, desig_mode, indicators: ind, decoy };
+                            let b = match spec.bytes() {
+                                Some(b) => b,
+                                None => {
+                                    bump(&mut counters, "reencode_unwritable");
+                                    continue;
+                                }
+                            };
+                            evaluations += 1;
+                            digests.push(fnv(&b));
+                            bump(&mut counters, &format!("reencoded_v{version}"));
+                            let got = decode(&b);
+                            let same = match (&got, &original, spec.expected()) {
+                                (Ok(Ok(z)), Ok(Ok(o)), Ok(e)) => {
+                                    let zr = z.as_ref();
+                                    let or = o.as_ref();
+                                    *z == e && zr.transitions() == or.transitions() && zr.local_time_types() == or.local_time_types() && zr.leap_seconds() == or.leap_seconds() && (version == 1 || zr.extra_rule() == or.extra_rule())
+                                }
+                                _ => false,
+                            };
+                            if !same && found.iter().filter(|f| f.oracle == "C08.fidelity").count() < 3 {
+                                found.push(Found { oracle: "C08.fidelity".into(), sig: "decoded-zone-differs".into(), detail: format!("{label} re-encoded as version {version} (string table mode {desig_mode}, 32-bit block {decoy}): decoding does not give the zone of the original file back"), scenario: scenario_for(Content::Gen(spec), None, &prop) });
+                            }
+                        }
+                    }
+                }
+                if samples.len() < 3 {
+                    samples.push(format!("{label}: re-encoded by the harness's writer as v1 (if it fits) / v2 / v3 x 2 string-table layouts x 3 kinds of 32-bit block"));
+                }
+            }
             "bytes" => {
                 // every single-byte corruption (4 values per position): whatever the library still accepts
                 // must be what the reference decoder reads from the same bytes
